@@ -25,7 +25,7 @@ class SegTable:
         self.txt: list[str] = []
         self.ids: dict[str, int] = {}
         for s in segs or []:
-            t = s["stem"] + ("" if s["num"] < 0 else str(s["num"])) + "".join("." + e for e in s["exts"])
+            t = s["stem"] + ("" if s["num"] < 0 else "0" * s.get("pad", 0) + str(s["num"])) + "".join("." + e for e in s["exts"])
             self._add(t, s)
 
     def _add(self, t: str, rec: dict) -> int:
